@@ -295,23 +295,40 @@ def opsEx : List (Op (ZMod 7)) :=
     .sign [1, 3],
     .redistribute [1, 2] [2, 6] [6, 1] [[1, 1], [0, 1]] [7, 9] [[5], [0]] ]
 
-example : e0ex.Shaped := by decide
-example : WellFormed e0ex opsEx := by decide
+theorem shapedEx : e0ex.Shaped := by
+  unfold State.Shaped e0ex; decide
+
+theorem wfEx : WellFormed e0ex opsEx := by
+  simp only [opsEx, WellFormed, OpOk, State.IsReconVector]
+  decide
+
 example : (run opsEx e0ex).secret = 3 ∧ (run opsEx e0ex).labels = [7, 9] := by decide
 
 example : (run opsEx e0ex).secret = e0ex.secret ∧ (run opsEx e0ex).pk (1 : ZMod 7) = e0ex.pk 1 ∧
     (run opsEx e0ex).Shaped :=
-  history_preserves_key (1 : ZMod 7) opsEx e0ex (by decide) (by decide)
+  history_preserves_key (1 : ZMod 7) opsEx e0ex shapedEx wfEx
 
-example := history_shares_verify (F := ZMod 7) (1 : ZMod 7) C05.hg7 opsEx e0ex (by decide) (by decide) 9 (by decide)
+example := step_preserves_secret e0ex (.refresh [0, 4]) shapedEx (by simp only [OpOk]; decide)
 
-example : (run opsEx e0ex).IsReconVector [7, 9] [1, 6] := by decide
+example := history_shares_verify (F := ZMod 7) (1 : ZMod 7) C05.hg7 opsEx e0ex shapedEx wfEx 9 (by decide)
+
+theorem reconEx : (run opsEx e0ex).IsReconVector [7, 9] [1, 6] := by
+  unfold State.IsReconVector; decide
+
 example : dot [1, 6] ((run opsEx e0ex).sharesQ [7, 9]) = e0ex.secret :=
-  history_qualified_reconstruct (1 : ZMod 7) opsEx e0ex (by decide) (by decide) [7, 9] [1, 6] (by decide)
+  history_qualified_reconstruct (1 : ZMod 7) opsEx e0ex shapedEx wfEx [7, 9] [1, 6] reconEx
 
-/-- holder 7 alone is unqualified in the final structure -/
-example : ¬ ∃ c : List (ZMod 7), (run opsEx e0ex).IsReconVector [7] c :=
-  epoch_unqualified_no_coeffs _ [7] (by decide)
+/-- holder 7 alone is unqualified in the final structure: no coefficient for its row `(1, 1)` gives `e₀` -/
+example : ¬ ∃ c : List (ZMod 7), (run opsEx e0ex).IsReconVector [7] c := by
+  rintro ⟨c, hlen, hc⟩
+  have h1 : (run opsEx e0ex).rowsQ [7] = [[1, 1]] := by decide
+  have h2 : (run opsEx e0ex).r.length = 2 := by decide
+  rw [h1, h2] at hc
+  rw [h1] at hlen
+  match c, hlen with
+  | [x], _ =>
+    have := congrArg (fun l => (l.getD 0 0, l.getD 1 0)) hc
+    simp [mulVec, transposeN, dot, Vss.e0] at this
 
 /-- mixing epochs: rows of holders 1, 2 of the (2,3) programme, `c = (2, −1)`; holder 1 uses the
 refreshed share (`r_b = (3, 6)`), holder 2 the old one (`r_a = (3, 5)`): the result is `3 + 2 ≠ 3` -/
